@@ -32,38 +32,44 @@ func symBytes(tag string, maxLen int) []byte {
 func bytesEq(a, b []byte) bool { return verifStrEq(string(a), string(b)) }
 
 // C17: the file store never exposes or keeps a partial node.
+// R faulty attempts (default 1) to write the same node, each cut at a symbolic point by a crash or
+// an I/O error and followed by a restart and a Load; then a healthy write and a Load.
 func HarnessC17a() {
 	dir := verifFSDir()
 	b := symBytes("data", verifBound("LMAX"))
 	name := "n1"
-	p := NewPersistForPath(dir)
-	kind := verifChoose("fault", 3) // 0 none, 1 crash at a step, 2 write error after k bytes
-	switch kind {
-	case 1:
-		verifFSCrashAt(verifChoose("crashstep", len(b)+4))
-	case 2:
-		if len(b) == 0 {
-			verifAssume(false) // a write of no bytes cannot be cut
+	rounds := verifBoundOr("R", 1)
+	for r := 0; r < rounds; r++ {
+		p := NewPersistForPath(dir)
+		kind := verifChoose("fault", 3) // 0 none, 1 crash at a step, 2 write error after k bytes
+		switch kind {
+		case 1:
+			verifFSCrashAt(verifChoose("crashstep", len(b)+4))
+		case 2:
+			if len(b) == 0 {
+				verifAssume(false) // a write of no bytes cannot be cut
+			}
+			verifFSWriteError(0, verifChoose("werr", len(b)))
 		}
-		verifFSWriteError(0, verifChoose("werr", len(b)))
-	}
-	serr, crashed := storeUnderFault(p, name, b)
-	verifFSCrashAt(-1)
-	verifFSWriteError(-1, 0)
-	if kind == 0 {
-		verifAssert("C17.healthy-store-succeeds", serr == nil && !crashed)
-	}
-	// "restart": a fresh Persist on the same directory
-	p2 := NewPersistForPath(dir)
-	got, lerr := p2.Load(vctx, name)
-	verifAssert("C17.load-after-cut-is-notfound-or-complete", lerr != nil || bytesEq(got, b))
-	if serr == nil && !crashed {
-		verifAssert("C17.success-is-complete", lerr == nil && bytesEq(got, b))
+		serr, crashed := storeUnderFault(p, name, b)
+		verifFSCrashAt(-1)
+		verifFSWriteError(-1, 0)
+		if kind == 0 {
+			verifAssert("C17.healthy-store-succeeds", serr == nil && !crashed)
+		}
+		// "restart": a fresh Persist on the same directory
+		p2 := NewPersistForPath(dir)
+		got, lerr := p2.Load(vctx, name)
+		verifAssert("C17.load-after-cut-is-notfound-or-complete", lerr != nil || bytesEq(got, b))
+		if serr == nil && !crashed {
+			verifAssert("C17.success-is-complete", lerr == nil && bytesEq(got, b))
+		}
 	}
 	// a later write of the same node repairs it
-	serr2 := p2.Store(vctx, name, b)
+	p3 := NewPersistForPath(dir)
+	serr2 := p3.Store(vctx, name, b)
 	verifAssert("C17.restore.err", serr2 == nil)
-	got2, lerr2 := p2.Load(vctx, name)
+	got2, lerr2 := p3.Load(vctx, name)
 	verifAssert("C17.restore-repairs", lerr2 == nil && bytesEq(got2, b))
 }
 
